@@ -850,9 +850,9 @@ func (s *sim) execVote(op Op) {
 	if s.skipKnown(s.voteTrigger(b)) {
 		return
 	}
-	pairs, _, _ := b.authentic()
+	pairs, perT, _ := b.authentic()
 	s.classifyVote(b, pairs)
-	sv := sentVote{Step: s.step, Kind: b.Kind, H: b.H, R: b.R, Authentic: pairs, Targets: len(b.Proofs)}
+	sv := sentVote{Step: s.step, Kind: b.Kind, H: b.H, R: b.R, Authentic: pairs, Targets: len(b.Proofs), Per: perT}
 	n := 1
 	if op.Dup {
 		n = 2
@@ -1520,7 +1520,7 @@ func (s *sim) execConc(op Op) {
 					res = s.n.m.HandlePrecommitProofs(ctx, tmconsensus.PrecommitSparseProof{Height: bb.H, Round: bb.R, PubKeyHash: bb.PKH, Proofs: bb.Proofs})
 				}
 			})
-			pairs, _, _ := b.authentic()
+			pairs, perT, _ := b.authentic()
 			s.classifyVote(b, pairs)
 			step := s.step
 			ps = append(ps, pending{cr: cr, pan: &pan, name: "HandleVoteProofs", fin: func() {
@@ -1531,7 +1531,7 @@ func (s *sim) execConc(op Op) {
 					s.futureStored[fmt.Sprintf("%d/%d", bb.H, bb.R)] = true
 				}
 				s.lastVoteRes = append(s.lastVoteRes, res)
-				s.sentVotes = append(s.sentVotes, sentVote{Step: step, Kind: bb.Kind, H: bb.H, R: bb.R, Authentic: pairs, Targets: len(bb.Proofs), Results: []tmconsensus.HandleVoteProofsResult{res}})
+				s.sentVotes = append(s.sentVotes, sentVote{Step: step, Kind: bb.Kind, H: bb.H, R: bb.R, Authentic: pairs, Targets: len(bb.Proofs), Per: perT, Results: []tmconsensus.HandleVoteProofsResult{res}})
 			}})
 		}
 	}
